@@ -36,6 +36,9 @@ def gen(fmt, prob, kind, layout, k, raw):
         # from the class docstring): the field starts at body[5], the problem text is on its continuation line
         tag = '@ivar attr:' if fmt == 'epytext' else ':ivar attr:'
         body = ['Summary line.', '', 'A normal paragraph', 'spanning two lines.', '', tag + ' the attribute,', '    ' + ptext, '    last line of the field.']
+    if layout == 5:
+        # a form feed (page break) on the separator line: one physical line for Python, a line boundary for str.splitlines() (seed C16-7)
+        body[1] = '\x0c'
     lines = ['# c'] * k
     indent = ''
     if kind == 'module':
@@ -59,7 +62,7 @@ def gen(fmt, prob, kind, layout, k, raw):
         first = len(lines) + 1
         pline = first + pidx
     else:
-        pre = {1: [], 2: [''], 3: ['', ''], 4: [indent + '  ']}[layout]
+        pre = {1: [], 2: [''], 3: ['', ''], 4: [indent + '  '], 5: []}[layout]
         doc = [indent + q] + pre + [indent + b if b else '' for b in body]
         first = len(lines) + 1
         pline = first + 1 + len(pre) + pidx
@@ -153,19 +156,19 @@ def check_planted(fmt, prob, kind, layout, k, raw):
     code=["pydoctor.astutils.extract_docstring_linenum / Documentable.setDocstring", "pydoctor.model.Documentable.report", "pydoctor.epydoc2stan.reportErrors / Field.report / FieldHandler",
           "pydoctor.epydoc.markup.epytext (Token.startline, ParseError)", "pydoctor.epydoc.markup.restructuredtext (_EpydocReader.report, field line numbers)",
           "pydoctor.epydoc.markup._napoleon / pydoctor.napoleon (google, numpy)", "pydoctor.linker._EpydocLinker (unresolved cross-reference report)"],
-    bounds={"quick": "4 docformats x problem kinds (unresolvable cross-reference, unknown field, documented parameter that does not exist, markup error; reST also: a field whose text starts below its marker line) x 7 object kinds (module, function, class, method, attribute, attribute documented by an @ivar field of its class's docstring, method showing a docstring inherited from its base class) x 5 docstring layouts (text on the opening line, below it, after 1 or 2 blank lines, after a whitespace-only line) x vertical offset 0/3 x raw string or not (1 344 modules)",
+    bounds={"quick": "4 docformats x problem kinds (unresolvable cross-reference, unknown field, documented parameter that does not exist, markup error; reST also: a field whose text starts below its marker line) x 7 object kinds (module, function, class, method, attribute, attribute documented by an @ivar field of its class's docstring, method showing a docstring inherited from its base class) x 6 docstring layouts (text on the opening line, below it, after 1 or 2 blank lines, after a whitespace-only line, with a form-feed character on the line after the summary) x vertical offset 0/3 x raw string or not (1 344 modules)",
             "thorough": "offsets 0..3"},
     outside="docstring texts other than the generated one; several problems per docstring",
 )
 def h_planted_problems(prob: int, layout: int, k: int, raw: bool) -> bool:
     """
-    pre: 0 <= prob <= 5 and 0 <= layout <= 4 and 0 <= k <= 3
+    pre: 0 <= prob <= 5 and 0 <= layout <= 5 and 0 <= k <= 3
     pre: FULLK or k == 0 or k == 3
     post: _
     """
     fi, kd = PART if PART is not None else [0, 1]
     prob = pick(prob, 0, 5)
-    layout = pick(layout, 0, 4)
+    layout = pick(layout, 0, 5)
     k = pick(k, 0, 3)
     raw = pickb(raw)
     with NoTracing():
